@@ -60,6 +60,7 @@ PAYLOADS = [
     "'{0.__class__}'.format(1)", "'{0.__class__.__mro__}'.format(1)", "'{0.__hash__}'.format(0)", "'{.real.__class__}'.format(1)", "'{a.__class__}'.format(a=1)",
     "'{0[0].__doc__}'.format(['x'])", "'{}-{}'.format(1, 2)", "'{0.__init__.__globals__}'.format(led)", "'%(a)s' % {'a': 1}", "'{!r}'.format(open)", "str.format('{0.__class__}', 1)",
     "format(1, '>5')", "'{:>{w}}'.format(1, w=5)", "(1).__class__", "(1).__class__.__name__", "''.join.__self__.__class__", "type(1)", "repr(len)", "str(print)", "f'{len}'", "f'{(1).__class__}'",
+    "(-7) ** 90000000", "(-3) ** (9 ** 9)", "(-2) ** 10 ** 9", "(-1) ** 10 ** 9", "-7 ** 90000000", "(0 - 5) ** 10 ** 8", "2 ** (2 ** 40)", "(2 ** 4000) ** 4000", "3 ** 9000 * 3 ** 9000",
     "pow(7, 7 ** 9)", "pow(2, 10)", "pow(2, 0.5)", "pow(10, 10 ** 7)", "round(1e308)", "round(2.5)", "round(2.567, 1)", "abs(-10 ** 400)", "int(10 ** 400)", "float(10 ** 400)",
     "divmod(7, 0)", "min(1, 2, key=len)", "sum([1, 2])", "max(range(10 ** 9))", "len(range(10 ** 12))", "list(range(10 ** 9))", "sorted([3, 1])", "hex(255)", "chr(65)", "ord('A')",
     "[31.0, 0, 0, 0, 0, 0, 0, 0]", "[62 / 2, 0, 0, 0, 0, 0, 0, 0]", "[float(4), 1, 2, 3, 4, 5, 6, 7]", "[1, 2, 3, 4, 5, 6, 7, 8.5]", "[True, False, 1, 0, 1, 0, 1, 0]", "[1e400, 0, 0, 0, 0, 0, 0, 0]",
@@ -110,7 +111,7 @@ def gen_inputs(t, sd):
         list_pos = [a for a, tpl in enumerate(TEMPLATES) if "glyph(0" in tpl or "flash_pattern({P})" in tpl or tpl.startswith("x = {P}") or "len({P})" in tpl]
         list_pay = [b for b, pl in enumerate(PAYLOADS) if pl.startswith(("[", "(1, 2")) and len(pl) < 60]
         num_pos = [a for a, tpl in enumerate(TEMPLATES) if tpl in ("sleep({P})", "led.set_brightness({P})", "x = {P}", "sv.write({P})", "bz.play_tone({P})", "mon.write({P})")]
-        num_pay = [b for b, pl in enumerate(PAYLOADS) if pl.startswith(("pow(", "round(", "abs(", "int(", "float(", "divmod", "sum(", "max(", "min(", "len(range", "2.0", "31.0", "1e3", "5.0"))]
+        num_pay = [b for b, pl in enumerate(PAYLOADS) if pl.startswith(("(-", "-7 **", "(0 - 5)", "2 ** (2", "(2 ** 4000)", "3 ** 9000", "pow(", "round(", "abs(", "int(", "float(", "divmod", "sum(", "max(", "min(", "len(range", "2.0", "31.0", "1e3", "5.0"))]
         chosen.update((a, b) for a in list_pos for b in list_pay)
         chosen.update((a, b) for a in num_pos for b in num_pay)
         pairs = sorted(chosen)
